@@ -67,6 +67,8 @@ def build(case, with_layer=True):
     comps = {"conn": {}, "neur": {}}
     for name, c in case["conns"].items():
         comps["conn"][name] = B.make_connection(c, dt, Bsz)
+        if c.get("updater"):
+            comps["conn"][name].updater = comps["conn"][name].defaultupdater()
     for name, n in case["neurs"].items():
         comps["neur"][name] = B.make_neuron(n, dt, Bsz)
     layer = None
@@ -271,7 +273,8 @@ def _conn(draw, inshape, outshape, allow_direct=True):
         t = draw(st.sampled_from(["dense", "direct", "lateral"]))
     c = {"type": t, "inshape": list(inshape), "outshape": list(outshape), "syn": _syn(draw),
          "bias": draw(st.booleans()), "delay": draw(st.sampled_from([None, None, 1, 3])),
-         "wseed": draw(st.integers(0, 9999)), "dseed": draw(st.integers(0, 9999))}
+         "wseed": draw(st.integers(0, 9999)), "dseed": draw(st.integers(0, 9999)),
+         "updater": draw(st.booleans())}
     return c
 
 
